@@ -71,10 +71,25 @@ func init() {
 	)
 }
 
-func constName(f *Fn, e ast.Expr) string {
+func constName(f *Fn, e ast.Expr) string { return constNameD(f, e, 0) }
+
+func constNameD(f *Fn, e ast.Expr, depth int) string {
 	if o := f.ObjOf(e); o != nil {
 		if _, ok := o.(*types.Const); ok {
 			return o.Name()
+		}
+	}
+	// a local that is declared with its only value (`kind := X`, `var kind T = X`): what an
+	// inlined helper's parameter looks like
+	if v := f.varOf(e); v != nil && depth < 4 {
+		for g := f; g != nil; g = g.Parent {
+			if g.paramIndex(v) != -2 {
+				return ""
+			}
+		}
+		defs := f.defsOf(v)
+		if len(defs) == 1 && !defs[0].multi && defs[0].rhs != nil && defs[0].pos <= v.Pos() && v.Pos() < defs[0].rhs.Pos() {
+			return constNameD(f.enclosing(defs[0].rhs), defs[0].rhs, depth+1)
 		}
 	}
 	return ""
